@@ -700,6 +700,8 @@ func init() {
 			{"config plain nodelay noretry", "setctx 1 norestart", "setkey 1 start", "setkey 2 start", "settle", "removekey 1", "probek 1", "setctx 0 norestart", "probeall", "retk 1 cancel", "retk 2 cancel", "advance"},
 			// refcount: references taken after RemoveKey are the only live ones
 			{"config rc nodelay noretry", "setctx 1 norestart", "addref 1", "addref 1", "rcremove 1", "getkeys", "addref 1", "release 2", "getkeys", "release 0", "release 1", "addref 1", "getkeysdata", "release 3", "getkeys"},
+			// a routine that returned nil is still subject to the release delay
+			{"config plain delay noretry", "setctx 1 norestart", "setkey 1 start", "settle", "retk 1 ok", "settle", "removekey 1", "getkeys", "getkey 1", "advance", "getkeys"},
 			// a failed routine is removed at once even with a delay; retry then stops
 			{"config plain delay retry 1", "setctx 1 norestart", "setkey 1 start", "settle", "retk 1 err", "advance", "retk 1 err", "advance", "removekey 1", "getkeys", "advance"},
 		},
